@@ -741,9 +741,21 @@ impl Transaction {
             });
         }
 
-        self.propagate_governance().await?;
-        self.check_reference_closure().await?;
-        self.check_concept_key_identity().await?;
+        let mut checked = self.propagate_governance().await;
+        if checked.is_ok() {
+            checked = self.check_reference_closure().await;
+        }
+        if checked.is_ok() {
+            checked = self.check_concept_key_identity().await;
+        }
+        if let Err(err) = checked {
+            // A refusal found at commit is still a refusal, and nothing has
+            // been written yet: the shells go the way `abort` sends them, or a
+            // `{state: "pending"}` pattern would see what a refused statement
+            // left behind.
+            self.discard_shells().await;
+            return Err(err);
+        }
 
         // Nothing this transaction touched keeps its shell state, and the
         // version rule is applied here so that a clause touching one element
